@@ -34,4 +34,13 @@ PROPS = {
                                      "OS rename(2) atomicity and page-cache visibility after SIGKILL are assumed, exercised by the kill campaign"],
         "assumptions": ["no fsync: power-loss durability is out of scope (neither code nor model syncs)", "faults are injected at the storage.WriteBucket interface, not inside the kernel"],
     },
+    "C19": {
+        "harness": "c19", "protocol": "c19", "level": "proof", "stateful": False,
+        "rule": "Section A: every BUF_TOKEN string over {t,u,h,g,@,',',:} up to length 6 (quick) / 7 (thorough), plus every string of length 7 (quick) / 8 (thorough) over {t,h,@,',',:}, and random longer strings built from token/host atoms (empty parts, extra '@', ':' in tokens, repeated hosts, ports), through NewTokenProviderFromString / NewTokenProviderFromContainer; RemoteToken is asked for 6 fixed hosts plus every piece of the string. Section B: generated .netrc files (0-4 machines, optional default entry anywhere, optional login, either field order, one-line and multi-line layouts) written to disk and read through the real netrc token provider for every machine name plus 5 other hosts. Section K: 11 fixed .netrc files with a value spelled like a keyword. Section C: the real authorization interceptor with 1-4 providers (static + netrc) invoked on a connect request for 8 hosts. Section D: bufcli.NewConnectClientConfig (BUF_TOKEN, NETRC) -> connectclient.Make -> unary call against 3 loopback HTTP servers; the Authorization header each server received and the AuthError attribution are compared. A line is non-trivial when the token string has a separator (A), the file has an entry (B/K), or a header was sent (C/D); distinct = distinct protocol lines.",
+        "trusted_base": COMMON_TB + ["jdx/go-netrc's LEXER is not modelled (the model starts from the token list; the harness builds files as alternating word/whitespace tokens without '#' comments, and the correspondence would show a disagreement if the lexer split them differently); its grouping parser, Machine() and Get() ARE modelled",
+                                     "the error class of newTokenProviderFromString is read off the fixed part of the error message (the package has no sentinel errors)",
+                                     "net/http, connect-go and otelconnect are exercised by section D but not modelled; the model's request 'host' is the address given to connectclient.Make"],
+        "assumptions": ["strings are valid UTF-8", "the TLS/address-mapper part of connectclient_config.go only rewrites the URL scheme (checked in section D by the Host the loopback server sees, not proved)",
+                        ".netrc theorems about file contents (netrc_plain_exact_or_default) cover the one-line spelling written by `buf registry login`; other layouts are covered at the machine-list level (netrc_exact_or_default) and by correspondence"],
+    },
 }
